@@ -469,6 +469,17 @@ def fam_conn(tier, seed):
                  dict(rng.choice(STOP_VARIANTS), at=tstop, i="A"),
                  {"at": tdisc + grace, "do": "release_gate", "i": "A"}]
         out.append(scn("conn-stop-at-grace-%d" % k, seed * 1000 + 900 + k, H, 3.0, insts, steps, "conn", tstop + 8 * S))
+    # a reconnect notification just before the grace period ends, its handler held inside its critical section before it stops
+    # the timer (scheduler gate at its log line, released at the very instant the timer fires): no grace demotion
+    for k in range(4 if tier == "quick" else 30):
+        H = rng.choice([200 * MS, 500 * MS, 1 * S])
+        grace = 2 * H
+        tdisc = int((1.3 + rng.random()) * H)
+        insts = [inst("A", conn=True, grace_us=grace, gate_log="connection_reconnected")]
+        steps = [{"at": 0, "do": "start", "i": "A"}, {"at": tdisc, "do": "disc", "i": "A"},
+                 {"at": tdisc + grace - rng.choice([1000, 5 * MS, 20 * MS]), "do": "reconn", "i": "A"},   # (the held handler delays the verification read by as much)
+                 {"at": tdisc + grace, "do": "release_gate", "i": "A"}]
+        out.append(scn("conn-reconnect-handler-held-at-grace-end-%d" % k, seed * 1000 + 950 + k, H, 3.0, insts, steps, "conn", tdisc + grace + 8 * H + 2 * S))
     # a grace timer armed in one term, a later disconnect notification while follower, and a new term before the old timer fires
     for k in range(4 if tier == "quick" else 30):
         H = 500 * MS
@@ -914,6 +925,38 @@ def fam_regress(tier, seed):
             {"when": {"i": "A", "kind": "deliver", "nth": 6, "phase": "pre"}, "do": "noop",
              "then": [{"do": "sleep", "us": rng.choice([550, 650]) * MS}, {"do": "release_gate", "i": "A"}], "release": "now"},
             ], "regress", 14 * Hw, lat=10 * MS, watch=20 * MS))
+        # 35. an election with connection monitoring is stopped and started again: the library's monitor cannot be started twice,
+        #     the Start call is refused and the election stays what it was (STOPPED)
+        out.append(scn("reg-restart-refused-by-connection-monitor-%d" % k, seed * 1000 + k, H, ratio,
+                       [inst("A", conn=True), inst("B")], [
+            {"at": 0, "do": "start", "i": "A"}, {"at": H // 4, "do": "start", "i": "B"},
+            dict(rng.choice(STOP_VARIANTS[:3]), at=int(2.3 * H), i="A"), {"at": int(2.3 * H) + 1 * S, "do": "start", "i": "A"}],
+            "regress", 8 * H + 3 * S, lat=20 * MS, watch=30 * MS))
+        # 36. a Watch call that fails once with an error whose text looks permanent (a permissions violation), later a vacancy:
+        #     the follower keeps its watch loop and fills it
+        for wf in ("bucketnotfound", "authentication expired"):
+            out.append(scn("reg-watch-fails-once-with-permanent-looking-error-%s-%d" % (wf.split()[0], k), seed * 1000 + k, H, ratio, [inst("A"), inst("B")], [
+                {"at": 0, "do": "start", "i": "A"}, {"at": H // 4, "do": "start", "i": "B"},
+                {"at": int(3.3 * H) + 2 * S, "do": "stopctx", "i": "A", "del": True}], "regress", 10 * H + 4 * S,
+                rules=[{"match": {"i": "B", "kind": "watch"}, "fault": "fail:" + wf, "from_nth": 1, "count": 1}],
+                lat=20 * MS, watch=30 * MS))
+        # 37. the same store contract spoken with the plain error texts of a simple KeyValue implementation (the repository's
+        #     mock says "key already exists", "key not found", "revision mismatch"): schedules 1 and 1b, and a record deleted
+        #     under a leader that has no watch loop
+        out.append(scn("reg-plain-double-promotion-%d" % k, seed * 1000 + k, H, ratio, [inst("A"), inst("B")], [
+            {"at": 0, "do": "start", "i": "A"}, {"at": H // 10, "do": "start", "i": "B"},
+            {"at": int(2.5 * H), "do": "stopctx", "i": "A", "del": True},
+            {"when": {"i": "B", "kind": "create", "src": "acq", "nth": 6, "phase": "post"}, "do": "out_del",
+             "then": [{"do": "sleep", "us": 900 * MS}]}], "regress", 9 * H + 2 * S, lat=20 * MS, watch=30 * MS, err_dialect="plain"))
+        out.append(scn("reg-plain-late-create-while-leading-%d" % k, seed * 1000 + k, H, ratio, [inst("A"), inst("B")], [
+            {"at": 0, "do": "start", "i": "A"}, {"at": H // 10, "do": "start", "i": "B"},
+            {"at": int(2.5 * H), "do": "stopctx", "i": "A", "del": True},
+            {"when": {"i": "B", "kind": "create", "src": "acq", "nth": 6, "phase": "pre"}, "do": "noop",
+             "then": [{"do": "sleep", "us": 900 * MS}, {"do": "out_del"}, {"do": "sleep", "us": 5 * MS}], "release": "now"}],
+            "regress", 9 * H + 2 * S, lat=20 * MS, watch=30 * MS, err_dialect="plain"))
+        out.append(scn("reg-plain-record-deleted-under-leader-%d" % k, seed * 1000 + k, H, 5.0, [inst("A"), inst("B")], [
+            {"at": 0, "do": "start", "i": "A"}, {"at": 6 * H, "do": "start", "i": "B"},     # (nobody else notices the deletion first)
+            {"at": int((2.2 + 0.6 * rng.random()) * H), "do": "out_del"}], "regress", 9 * H + 2 * S, lat=20 * MS, watch=30 * MS, err_dialect="plain"))
         # 19. a heartbeat tick held by a hanging health check while the leader is preempted and, as a follower, observes its
         #     successor's next refresh: when the check returns the tick must not go on to the Update
         out.append(scn("reg-hanging-check-across-preemption-%d" % k, seed * 1000 + k, H1, 5.0,
